@@ -362,6 +362,10 @@ impl<T> ReadSignal<T> {
     /// # });
     /// ```
     pub fn track(self) {
+        // Only the innermost tracking context records reads, and only reads of its own root.
+        if !crate::root::is_tracking(self.root) {
+            return;
+        }
         if let Some(tracker) = &mut *self.root.tracker.borrow_mut() {
             tracker.dependencies.push(self.id);
         }
